@@ -173,6 +173,20 @@ h_add_m_ymcw(void)
 	      "ymcw + n months/years: month moved, weekday kept");
 	CHECK((int)f.ymcw.c == (c > cnt ? cnt : c), "count kept, clamped to the last such weekday of the month");
 	CHECK(rep_days(f) > 0, "result is a valid date");
+	/* composition: +a then +(n-a) in one invocation equals +n (a 5th
+	 * weekday that an intermediate month lacks must not be lost) */
+	{
+		ND(i32, va);
+		int ty, tm, td;
+		struct dt_d_s z;
+
+		ASSUME(va >= -MMAX && va <= MMAX && vn - va >= -MMAX && vn - va <= MMAX);
+		ref_add_months(r.y, r.m, 1, vyr ? 12 * va : va, &ty, &tm, &td);
+		ASSUME(ty >= REF_MIN_YEAR && ty <= REF_MAX_YEAR);
+		z = vyr ? dt_dadd_y(dt_dadd_y(x, va), vn - va) : dt_dadd_m(dt_dadd_m(x, va), vn - va);
+		z = dt_dfixup(z);
+		CHECK(z.u == f.u, "month/year steps on a count-weekday date compose: +a then +b equals +(a+b)");
+	}
 	WITNESS();
 }
 
